@@ -2,7 +2,7 @@
    Statements only; proofs live in Rlp/Proofs.v. *)
 From Coq Require Import List NArith Lia Bool Arith.
 From Coq Require Import Init.Byte.
-From FFS Require Import Base.Res Base.Bytes Rlp.Model Rlp.Spec Rlp.Proofs.
+From FFS Require Import Base.Res Base.Bytes Rlp.Model Rlp.Spec Rlp.Proofs Rlp.Header.
 Import ListNotations.
 
 (* 1. Encoding any tree produces the canonical RLP of the Yellow Paper (only guard: every length
@@ -61,3 +61,20 @@ Example C06_nonvacuous :
   let t := Lst [Str (repeat x61 56); Lst [Str []; Str [x7f]; Str [x80]]] in
   size_ok t = true /\ len_ok t /\ Decode (encode t ++ [x01]) = Ok (Some t, 65%nat).
 Proof. cbv zeta. split; [vm_compute; reflexivity|]. split; [apply size_ok_len_ok; vm_compute; reflexivity|]. vm_compute. reflexivity. Qed.
+
+(* 7. The length-only header evaluator used by the correspondence run for payloads of 2^24 bytes and
+      more (Rlp/Header.v) is the model and the Yellow Paper: for every payload that is not a single-byte
+      string the model output is [enc_header_N (length) ++ payload] and the specified encoding is
+      [spec_header_N (length) ++ payload]. *)
+Theorem C06_header_evaluator :
+  (forall inb il, (length inb <> 1%nat \/ il = true) ->
+      encode_bytes inb il = enc_header_N (N.of_nat (length inb)) il ++ inb) /\
+  (forall x, length x <> 1%nat -> R_b x = spec_header_N (len x) false ++ x) /\
+  (forall s, R_l s = spec_header_N (len s) true ++ s).
+Proof. exact header_evaluator_sound. Qed.
+Print Assumptions C06_header_evaluator.
+
+Example C06_header_nonvacuous :
+  enc_header_N 16777216 false = [xbb; x01; x00; x00; x00] /\ spec_header_N 16777216 true = [xfb; x01; x00; x00; x00] /\
+  enc_header_N 16777215 true = [xfa; xff; xff; xff] /\ enc_header_N 56 false = [xb8; x38] /\ enc_header_N 55 true = [xf7].
+Proof. vm_compute. repeat split; reflexivity. Qed.
